@@ -5,7 +5,8 @@
    Whole-function equivalence and the CFG-changing passes are NOT proved here: they are checked by
    differential execution (tools/props/c02.py). *)
 From PV Require Import Lib.Py Lib.Tac Spec.IRSyntax Spec.IRSem Model.OptValidate Model.OptValidateFn
-  Proofs.C02_rules Proofs.C02_validate Proofs.C02_local Gen.c02_pipeline.
+  Model.OptValidateCfg Proofs.C02_rules Proofs.C02_validate Proofs.C02_local Proofs.C02_clean
+  Proofs.C02_promote Gen.c02_pipeline.
 From Coq Require Import String.
 Open Scope Z_scope.
 
@@ -123,6 +124,52 @@ Theorem c02_check_local_run_main : forall c m m', cfg_ok c -> check_modul c m m'
   forall fname args n res, run_main c m fname args n = ODone res -> run_main c m' fname args n = ODone res.
 Proof. exact check_modul_run_main. Qed.
 Print Assumptions c02_check_local_run_main.
+
+(* ---- CleanPass-style CFG changes (glued blocks, bypassed empty blocks) plus block-local changes:
+   beta maps after-block ids to before-block ids (untrusted hint); same fuel, same result and state *)
+Theorem c02_check_clean_sound : forall c m m' hs, cfg_ok c -> check_modul_cfg c m m' hs = true ->
+  forall fname args s n r,
+    run_function c m fname args s n = ODone r -> run_function c m' fname args s n = ODone r.
+Proof. exact check_modul_cfg_sound. Qed.
+Print Assumptions c02_check_clean_sound.
+
+Theorem c02_check_clean_run_main : forall c m m' hs, cfg_ok c -> check_modul_cfg c m m' hs = true ->
+  forall fname args n res, run_main c m fname args n = ODone res -> run_main c m' fname args n = ODone res.
+Proof. exact check_modul_cfg_run_main. Qed.
+Print Assumptions c02_check_clean_run_main.
+
+(* more fuel never changes a finished run (used to treat the jump of a removed block as a silent step) *)
+Theorem c02_exec_fuel_mono : forall c m ge n n' f args pred b e s r, (n <= n')%nat ->
+  exec_block c m ge n f args pred b e s = ODone r -> exec_block c m ge n' f args pred b e s = ODone r.
+Proof. exact exec_block_le. Qed.
+Print Assumptions c02_exec_fuel_mono.
+
+(* ---- LoadAfterStorePass / Mem2RegPromotor: the memory fact they rest on *)
+Theorem c02_rule_las : forall c t b sg s p z s',
+  cfg_ok c -> int_shape c t = Some (b, sg) -> wrap_bits b sg z = z ->
+  store_val c t s p (Vint z) = ODone s' -> load_val c t s' p = ODone (Vint z).
+Proof. exact c02_rule_las_sound. Qed.
+Print Assumptions c02_rule_las.
+
+(* ---- Mem2RegPromotor is NOT a refinement under the concrete-address reading of IRSem: three real
+   before/after pairs of the pass (re-generated and compared with these terms on every run) *)
+Theorem c02_promote_uninitialised_read_refuted :
+  run_main default_cfg r1_before "f" [] 10 = ODone (Some (Vint 0), [], []) /\
+  run_main default_cfg r1_after "f" [] 10 = OUB UBUndefRead.
+Proof. exact promote_uninitialised_read_refuted. Qed.
+Print Assumptions c02_promote_uninitialised_read_refuted.
+
+Theorem c02_promote_address_shift_refuted :
+  run_main default_cfg r2_before "f" [Vint 9] 10 = ODone (Some (Vint 16777224), [], []) /\
+  run_main default_cfg r2_after "f" [Vint 9] 10 = ODone (Some (Vint 16777216), [], []).
+Proof. exact promote_address_shift_refuted. Qed.
+Print Assumptions c02_promote_address_shift_refuted.
+
+Theorem c02_promote_forged_pointer_refuted :
+  run_main default_cfg r3_before "f" [] 10 = ODone (Some (Vint 7), [], []) /\
+  run_main default_cfg r3_after "f" [] 10 = OUB UBMem.
+Proof. exact promote_forged_pointer_refuted. Qed.
+Print Assumptions c02_promote_forged_pointer_refuted.
 
 (* ---- tie I: every pass of api.optimize and every pass class of ppci/opt is covered by the check *)
 Definition c02_covered : list string :=
